@@ -30,7 +30,7 @@ MODELS_USED = ["symreal ExtensionArray", "comparisons with +-inf resolved concre
 ASSUMPTIONS = ["CalTRACKSegmentModel.predict (patsy design matrix + statsmodels params) is outside the claim",
                "zones/months/hours are enumerated by solver forks over finite domains (exhaustive)"]
 EXPECTED_REGIMES = ["temperature exactly on an endpoint", "temperature below the first endpoint", "temperature above the last endpoint", "NaN temperature",
-                    "occupied hour", "unoccupied hour", "month boundary hour"]
+                    "occupied hour", "unoccupied hour", "month boundary hour", "same instants segmented earlier in another zone"]
 EXHAUSTIVE = False
 DEFAULT_BINS = [30, 45, 55, 65, 75, 90]
 ZONES = ["UTC", "US/Pacific", "Australia/Sydney"]
@@ -229,8 +229,7 @@ def run_processor(case, arg):
 
 # ------------------------------------------------------------------ weights / routing
 
-def boundary_index(zone, month, which):
-    y = 2020  # leap year
+def boundary_index(zone, month, which, y=2020):  # leap year
     if which == "first":
         t = pd.Timestamp(year=y, month=month, day=1, hour=0, tz=zone)
     else:
@@ -257,10 +256,14 @@ def expected_weights(seg_type, month):
     return names
 
 
-def weights_problems(zone, month, which):
-    idx = boundary_index(zone, month, which)
+def weights_problems(zone, month, which, prior=None):
+    """prior: None, or a zone in which the same instants were segmented earlier in the same process (a portfolio kept in
+    UTC and localised per site): earlier calls must not matter"""
+    idx = boundary_index(zone, month, which, 2020 if prior is None else 2024)  # histories do not share instants
     pr = []
     for seg_type in ("single", "one_month", "three_month", "three_month_weighted"):
+        if prior is not None:
+            sg.segment_time_series(idx.tz_convert(prior), seg_type)
         w = sg.segment_time_series(idx, seg_type)
         got = {c: float(w[c].iloc[0]) for c in w.columns}
         exp = expected_weights(seg_type, idx[0].month)
@@ -278,7 +281,7 @@ def weights_problems(zone, month, which):
 
 
 def replay_weights(inp):
-    pr, t = weights_problems(inp["zone"], inp["month"], inp["which"])
+    pr, t = weights_problems(inp["zone"], inp["month"], inp["which"], inp.get("prior"))
     return bool(pr), f"{t}: " + "; ".join(pr[:3])
 
 
@@ -288,17 +291,19 @@ def run_weights(case, zone):
     def run():
         month = F.choose("month", list(range(1, 13)))
         which = F.choose("which", ["first", "last"])
-        return month, which, weights_problems(zone, month, which)
+        prior = F.choose("prior", [None, "UTC" if zone != "UTC" else "Pacific/Auckland"])
+        return month, which, prior, weights_problems(zone, month, which, prior)
 
     paths = case.explore(run)
     for p in paths:
         if p.outcome != "ret":
             case.rep["harness_errors"].append(f"weights raised {p.value!r}")
             continue
-        month, which, (pr, t) = p.value
+        month, which, prior, (pr, t) = p.value
         case.prove(p, not pr, "full weight in exactly the own-month model, half weight in its two neighbours (fit); own month only (predict)",
-                   replay=("weights", (lambda a, b: lambda mdl: dict(zone=zone, month=a, which=b))(month, which)))
+                   replay=("weights", (lambda a, b, c: lambda mdl: dict(zone=zone, month=a, which=b, prior=c))(month, which, prior)))
         case.regime("month boundary hour")
+        case.regime("same instants segmented earlier in another zone", prior is not None)
     case.sample(dict(zone=zone, hours="first and last local hour of each month of 2020"))
 
 
